@@ -64,8 +64,12 @@ pub fn gen_solver<VS: HSet>(sink: &mut Sink, prop: &str, thorough: bool, seed: u
     if VS::KIND == "range" {
         exhaustive_scope::<VS>(sink, prop, thorough, debug);
     }
+    // VERIF_LIGHT=1 (the quick tier's pass over a DEBUG build of the crate: debug assertions and every
+    // `cfg!(debug_assertions)` path on): corpus, the exhaustive scope and a tenth of the random cases only
+    let light = std::env::var("VERIF_LIGHT").map(|v| v == "1").unwrap_or(false);
+    let n_random = if light { n_random / 10 } else { n_random };
     // wide runs: incompatibilities with dozens of terms
-    if VS::KIND == "range" {
+    if VS::KIND == "range" && !light {
         let ns: &[u32] = if thorough { &[8, 15, 16, 17, 23, 24, 25, 31, 32, 33, 40] } else { &[8, 24, 33] };
         for &n in ns {
             for solvable in [true, false] {
@@ -76,7 +80,7 @@ pub fn gen_solver<VS: HSet>(sink: &mut Sink, prop: &str, thorough: bool, seed: u
         sink.notes.push(format!("wide runs: a hub with n leaves constraining one package, n in {:?}, solvable and not: learned incompatibilities with up to n + 2 terms", ns));
     }
     // deep runs: a few hundred decision levels (8-bit narrowing of levels / indices shows)
-    let n_deep = if thorough { 40 } else { 8 };
+    let n_deep = if light { 0 } else if thorough { 40 } else { 8 };
     let mut crossing = 0usize;
     for _ in 0..n_deep {
         // rejection sampling: prefer a run with a backjump from above decision level 256 to below it
@@ -255,6 +259,8 @@ pub fn gen_c17(sink: &mut Sink, thorough: bool, seed: u64, debug: bool) {
     // (b) the solver with the custom version set
     gen_solver::<BitSet8>(sink, "C17", thorough, seed, debug, crate::util::scaled(if thorough { 100_000 } else { 6_000 }));
     gen_solver::<crate::hset::BitSet2>(sink, "C17", thorough, seed ^ 0x22, debug, crate::util::scaled(if thorough { 40_000 } else { 3_000 }));
+    gen_solver::<crate::hset::BlurSet8>(sink, "C17", thorough, seed ^ 0xa4, debug, crate::util::scaled(if thorough { 40_000 } else { 3_000 }));
+    sink.notes.push("the solver also over a custom set whose Display is not injective ({1} and {5} print alike)".into());
     sink.notes.push("the solver also over a custom set with a 2-element universe (the versions of one package cover it: a merged dependent set equals full())".into());
     let _: BTreeMap<u8, u8> = BTreeMap::new();
 }
